@@ -5,8 +5,8 @@ from props import _family as F
 
 PROOF_MODULES = ['Jwt.Props.C07']
 PROP_MODULES = ['Jwt.Props.C07']
-PROP_FILES = ['Jwt/Props/C07.lean']
-GENERATED_FACT_THEOREMS = 1
+PROP_FILES = ['Jwt/Props/C07.lean', 'Jwt/Lemmas/PipelineJwk.lean']
+GENERATED_FACT_THEOREMS = 3
 CHECKER_CMD = "cd lean && lake build Jwt.Props.C07 && lake env lean <generated #print axioms file>"
 LEVEL_TEXT = ('Lean theorems for every JSON value and every key-material oracle: set error and no items for non-JSON, exactly one item without a keys member, exactly n items in document order for a keys array, none for a non-array keys; every item is flagged with a message or is a usable key (known kty, PEM or non-empty oct bytes), by case analysis over the member handling of all four key types with Option-tracked json_string_value; preserved by every load. Memory safety/UB/leaks of the compiled code are witnessed by ASan/UBSan/LSan runs: every member x 9 JSON types/absent/truncated/extended/flipped for every key type, non-JWK documents, keys of every type, 0-50 elements, mutated text, all five entry points incl. embedded NUL.')
 ASSUMPTIONS = F.COMMON_ASSUME + ['PARTIAL: memory safety, UB and leaks of compiled libjwt/jansson/OpenSSL on these inputs are witnessed by sanitizers, not proved', 'EVP_PKEY_fromdata / PEM export acceptance of key material is a parameter (KeyOracle), answered in the harness by an independent OpenSSL caller']
